@@ -232,14 +232,37 @@ fn new_conn(router: &axum::Router, overlap: bool, rt: &tokio::runtime::Handle) -
 // requests and scripts
 // ---------------------------------------------------------------------------------------------
 
+fn header_name(k: &str, style: u64) -> String {
+    match style {
+        1 => k.split('-').map(|w| { let mut c = w.chars(); c.next().map(|f| f.to_uppercase().collect::<String>() + c.as_str()).unwrap_or_default() }).collect::<Vec<_>>().join("-"),
+        2 => k.to_uppercase(),
+        _ => k.to_string(),
+    }
+}
+
+fn http_request_styled(method: &str, path: &str, version: &str, headers: &[(&str, String)], body: &[u8], chunked: Option<usize>, style: u64, expect_continue: bool) -> Vec<u8> {
+    let mut out = format!("{} {} HTTP/{}\r\n{}: sim\r\n", method, path, version, header_name("host", style)).into_bytes();
+    for (k, v) in headers {
+        out.extend_from_slice(format!("{}: {}\r\n", header_name(k, style), v).as_bytes());
+    }
+    if expect_continue && !body.is_empty() {
+        out.extend_from_slice(format!("{}: 100-continue\r\n", header_name("expect", style)).as_bytes());
+    }
+    finish_request(out, method, body, chunked, style)
+}
+
 fn http_request(method: &str, path: &str, version: &str, headers: &[(&str, String)], body: &[u8], chunked: Option<usize>) -> Vec<u8> {
     let mut out = format!("{} {} HTTP/{}\r\nhost: sim\r\n", method, path, version).into_bytes();
     for (k, v) in headers {
         out.extend_from_slice(format!("{}: {}\r\n", k, v).as_bytes());
     }
+    finish_request(out, method, body, chunked, 0)
+}
+
+fn finish_request(mut out: Vec<u8>, method: &str, body: &[u8], chunked: Option<usize>, style: u64) -> Vec<u8> {
     match chunked {
         Some(sz) if !body.is_empty() => {
-            out.extend_from_slice(b"transfer-encoding: chunked\r\n\r\n");
+            out.extend_from_slice(format!("{}: chunked\r\n\r\n", header_name("transfer-encoding", style)).as_bytes());
             for c in body.chunks(sz.max(1)) {
                 out.extend_from_slice(format!("{:x}\r\n", c.len()).as_bytes());
                 out.extend_from_slice(c);
@@ -249,7 +272,7 @@ fn http_request(method: &str, path: &str, version: &str, headers: &[(&str, Strin
         }
         _ => {
             if !body.is_empty() || method == "POST" {
-                out.extend_from_slice(format!("content-length: {}\r\n", body.len()).as_bytes());
+                out.extend_from_slice(format!("{}: {}\r\n", header_name("content-length", style), body.len()).as_bytes());
             }
             out.extend_from_slice(b"\r\n");
             out.extend_from_slice(body);
@@ -327,7 +350,8 @@ pub fn gen_case(seed: u64, focus: &str) -> Value {
                 ("half_close_after_request", 2),
             ];
             let fault = fault_w[rng.weighted(&fault_w.iter().map(|x| x.1).collect::<Vec<_>>())].0;
-            reqs.push(json!({"kind": kind, "instance": inst, "fault": fault, "pipelined": rng.chance(1, 6), "chunk": *rng.pick(&[1u64, 7, 64, 1024, 1 << 20])}));
+            reqs.push(json!({"kind": kind, "instance": inst, "fault": fault, "pipelined": rng.chance(1, 6), "chunk": *rng.pick(&[1u64, 7, 64, 1024, 1 << 20]),
+                             "header_style": *rng.pick(&[0u64, 0, 0, 1, 2]), "expect_continue": rng.chance(1, 8)}));
         }
         clients.push(json!({"requests": reqs}));
     }
@@ -418,7 +442,10 @@ fn build_request(id: String, r: &Value) -> Req {
     let ct = |v: &str| vec![("content-type", v.to_string())];
     let (class, bytes) = match kind.as_str() {
         "health" => (Class::Health, http_request("GET", "/health", "1.1", &[], b"", None)),
-        "solve" => (Class::ValidSolve, http_request("POST", "/solve", "1.1", &ct("application/json"), &body_ok, None)),
+        "solve" => (
+            Class::ValidSolve,
+            http_request_styled("POST", "/solve", "1.1", &ct("application/json"), &body_ok, None, r["header_style"].as_u64().unwrap_or(0), r["expect_continue"].as_bool().unwrap_or(false)),
+        ),
         "solve_chunked" => (Class::ValidSolve, http_request("POST", "/solve", "1.1", &ct("application/json"), &body_ok, Some(97))),
         "solve_http10" => (Class::ValidSolve, http_request("POST", "/solve", "1.0", &ct("application/json"), &body_ok, None)),
         "solve_large" => {
